@@ -281,6 +281,7 @@ def run():
                     reqs.append({"src": p, "target": "sql." + n, "format": fmt, "sig": sig})
         reqs.append({"src": p, "format": False, "sig": False})    # no target option: header / default dialect
     bans = harness("c15_both", reqs)
+    retry = []
     for rq_, a in zip(reqs, bans):
         key = json.dumps(rq_, sort_keys=True)
         case = dict(rq_)
@@ -298,7 +299,22 @@ def run():
         if dc[0] == "panic" and sc[0] == "panic":
             continue
         case["got"] = {"direct": dc, "staged": sc, "stage": st.get("stage") if isinstance(st, dict) else None}
-        ck.disagreement("staged chain differs from compile() (%s vs %s)" % (dc[0], sc[0]), case, classify_f14)
+        retry.append((rq_, case, dc, sc))
+    # a mismatch is only meaningful if each path is a function of its input: outputs that already vary from call
+    # to call on ONE path (hash-iteration order, property C11) are told apart by repeating both paths
+    if retry:
+        rep = harness("c15_both", [r for r, _, _, _ in retry for _ in range(12)])
+        for k, (rq_, case, dc, sc) in enumerate(retry):
+            ds, ss = {json.dumps(dc)}, {json.dumps(sc)}
+            for a in rep[k * 12:(k + 1) * 12]:
+                if "direct" in a:
+                    ds.add(json.dumps(err_core(a["direct"])))
+                    st = a["staged"]
+                    ss.add(json.dumps(err_core(st["r"]) if isinstance(st, dict) and "r" in st else err_core(st)))
+            if (len(ds) > 1 or len(ss) > 1) and (ds & ss):
+                ck.stat("staged-vs-direct", "output-varies-between-calls(C11)")
+                continue
+            ck.disagreement("staged chain differs from compile() (%s vs %s)" % (dc[0], sc[0]), case, classify_f14)
     ck.coverage["staged_matrix"] = {"programs": len(sp), "dialects": len(names), "formats": 2, "signature": 2, "plus_no_target_option": True}
 
     # F14 in the model: the witness of c15_roundtrip_refuted_nonfinite replayed on the implementation
@@ -314,5 +330,6 @@ def run():
         "error composition differs between the paths by design (display/location are only set by compile / prql_to_pl): compared on kind, code, reason, hints, span",
         "a panic in both paths with the same message counts as agreement (C12 owns panics)",
         "json_ok (no non-finite float) is a hypothesis of staged_eq_direct; the programs violating it are exactly the F14 class",
+        "each path is a function of its input (C11): a staged/direct mismatch is re-run 12 times and not reported when the outputs of one path already vary between calls and the two sets of outputs overlap (hash-iteration-order findings of C11)",
     ]
     ck.finish(TRUSTED, "a case is (program, dialect, format, signature) for staged-vs-direct, a JSON document for the model streams; non-trivial = compile() succeeded / the document is distinct; documents are hashed by text")
